@@ -109,7 +109,7 @@ func (s *ModelServer) ListModes(_ context.Context, request *traits.ListModesRequ
 	}
 	pageSize := capPageSize(int(request.GetPageSize()))
 
-	sortedModes := s.model.Modes(resource.WithReadMask(request.ReadMask))
+	sortedModes := s.model.Modes() // unmasked: paging goes by the items' keys, which a read mask may leave out
 	nextIndex := 0
 	if lastKey != "" {
 		nextIndex = sort.Search(len(sortedModes), func(i int) bool {
@@ -135,7 +135,10 @@ func (s *ModelServer) ListModes(_ context.Context, request *traits.ListModesRequ
 	if err != nil {
 		return nil, err
 	}
-	result.Modes = sortedModes[nextIndex:upperBound]
+	readConfig := resource.ComputeReadConfig(resource.WithReadMask(request.ReadMask))
+	for _, item := range sortedModes[nextIndex:upperBound] {
+		result.Modes = append(result.Modes, readConfig.FilterClone(item).(*traits.ElectricMode))
+	}
 	return result, nil
 }
 
